@@ -26,7 +26,7 @@ func main() {
 	}
 	mk := func(name string, powers []int64, c netsim.Config) netsim.Config {
 		c.Name, c.Powers = name, powers
-		c.ByzMenu = true
+		c.ByzMenu = !c.NoByzMenu
 		if c.TargetHeight == 0 {
 			c.TargetHeight = 1
 		}
@@ -41,6 +41,7 @@ func main() {
 		{Cfg: mk("4x1-lock-split", one, netsim.Config{Byz: []int{3}, Driver: "lock-split"}), Bound: b - 1},
 		{Cfg: mk("4x1-late-polka", one, netsim.Config{Byz: []int{3}, Driver: "late-polka"}), Bound: b - 1},
 		{Cfg: mk("4x1-two-heights", one, netsim.Config{Byz: []int{3}, ByzMenu: false, TargetHeight: 2}), Bound: b - 1},
+		{Cfg: mk("4x1-restarts", one, netsim.Config{Byz: []int{3}, Restarts: true, NoByzMenu: true, TargetHeight: 2}), Bound: b - 1},
 		{Cfg: mk("2111-byz-small", []int64{2, 1, 1, 1}, netsim.Config{Byz: []int{3}}), Bound: b - 1},
 		{Cfg: mk("3331-byz-small", []int64{3, 3, 3, 1}, netsim.Config{Byz: []int{3}}), Bound: b - 1},
 	}
